@@ -41,6 +41,11 @@ Definition pipeline (fmt : Z) (base : str) (names : list str) (units : list (lis
   (* 8 pdf: every image XObject a page draws, in content-stream order, numbered per page (pypdf is the oracle that
      lists them; placements are XObject names, all present) *)
   | 8 => number_units_restart (fun pl => member_of names (fst pl)) units
+  (* variants with fixes/proposed-not-applied patches (selected by the harness's probes of the tree under test):
+     11 pptx / 18 pdf with a counter running through the slides / pages, 12 xlsx with anchors in document order *)
+  | 11 => number_units_running (fetch_opc (s "ppt/slides") names) 0 units
+  | 18 => number_units_running (fun pl => member_of names (fst pl)) 0 units
+  | 12 => number_units_running (fetch_opc (s "xl/drawings") names) 0 units
   | _ => []
   end.
 
@@ -67,11 +72,11 @@ Definition corr_pdf_ctype (tbl : list (str * str)) (c : list str * str) : bool :
 (* content type by extension: (format 0 docx / 1 pptx / 2 xlsx, name, (raw ext, lowered ext) recorded from str.lower,
    implementation's content type) *)
 Definition lower_of (pr : str * str) (x : str) : str := if str_eqb x (fst pr) then snd pr else x.
-Definition corr_ctype (tbls : list (list (str * str))) (c : Z * str * (str * str) * str) : bool :=
-  let '(fmt, name, pr, got) := c in
+Definition corr_ctype (tbls : list (list (str * str))) (c : Z * str * (str * str) * option str * str) : bool :=
+  let '(fmt, name, pr, sn, got) := c in
   match fmt, tbls with
-  | 0%Z, [d; _; _] => str_eqb (ooxml_content_type (lower_of pr) d name) got
-  | 1%Z, [_; p; _] => str_eqb (ooxml_content_type (lower_of pr) p name) got
-  | 2%Z, [_; _; x] => str_eqb (xlsx_content_type (lower_of pr) x name) got
+  | 0%Z, [d; _; _] => str_eqb (ooxml_content_type_b (lower_of pr) d sn name) got
+  | 1%Z, [_; p; _] => str_eqb (ooxml_content_type_b (lower_of pr) p sn name) got
+  | 2%Z, [_; _; x] => str_eqb (xlsx_content_type_b (lower_of pr) x sn name) got
   | _, _ => false
   end.
